@@ -36,7 +36,10 @@ def _frac(v):
 
 def model_dict(m, consts):
     out = {}
+    assigned = {d.name() for d in m.decls()}
     for c in consts:
+        if str(c) not in assigned:
+            continue          # left unconstrained by the solver: the replay picks a generic value instead of 0
         v = m.eval(c, model_completion=True)
         f = _frac(v)
         if f is not None:
